@@ -86,6 +86,27 @@ SEEDS = {
  'C19-4': ('/tmp/wt2_C19', 2, 'C19', 'two equal sales on one day in the post-2023 confirmation layout', {'C19': ['every-parsed-entry-is-collected']}, 'caught after rule R19g (collected entries are not de-duplicated or conditional on what was collected) was added'),
  'C20-3': ('/tmp/wt2_C20', 1, 'C20', 'a hint group consisting only of pages named by earlier groups', {'C20': ['queue-is-the-whole-group', 'ends-only-when-groups-exhausted-or-load-failed']}, 'caught after rule R20e was added'),
  'C20-4': ('/tmp/wt2_C20', 2, 'C20', 'the page carrying the "Current month" header is also the table page (one-page statement)', {'C20': ['every-page-is-tested-for-the-table']}, 'caught after rule R20f (no path to the next page ahead of the marker test) was added'),
+ # ---- third round (fresh agents; asked for plausible refactorings / optimisations / clean-ups, two cooperating edits, less central paths)
+ 'C01-5': ('/tmp/wt3_C01', 1, 'C01', 'a non-CAD trade with commission currency CAD and an empty commission-rate cell', {'C01': ['R1e|portfolio::model::tx::get_valid_exchange_rate']}, ''),
+ 'C01-6': ('/tmp/wt3_C01', 2, 'C01', '--symbol-base and a security name with a lower-case letter', {'C16': ['symbol-key-unmodified']}, 'seeded against C01, reported by the C16 check (R16c)'),
+ 'C02-5': ('/tmp/wt3_C02', 1, 'C02', 'an un-forced 0 in the superficial-loss cell of a superficial sale (dropped at CSV parse time)', {'C02': ['supplied-loss-carried-whatever-its-value']}, 'caught after rule R2j (the supplied value reaches the record unconditionally) was added'),
+ 'C02-6': ('/tmp/wt3_C02', 2, 'C02', 'two rows with one settlement date and trade dates against file order', {'C07': ['order-key-fields']}, 'seeded against C02, reported by the C07 check (R7a)'),
+ 'C03-5': ('/tmp/wt3_C03', 1, 'C03', 'three or more buying affiliates holding shares at the end of the window', {'C05': ['@sfl_validation|unwrap<Pos>']}, 'seeded against C03, reported by the C05 check (sign analysis of the remainder handed to PosDecimal)'),
+ 'C03-6': ('/tmp/wt3_C03', 2, 'C03', 'a superficial sale that carries a commission', {'C01': ['R1b|gain-inputs|Sell']}, 'seeded against C03, reported by the C01 check (R1b: a gain no longer depends on the commission)'),
+ 'C04-5': ('/tmp/wt3_C04', 1, 'C04', 'more than 20 rows, unsorted concatenation, same-day Buy/Sell pairs', {'C07': ['sort-dominates-split']}, 'seeded against C04, reported by the C07 check (R7b)'),
+ 'C04-6': ('/tmp/wt3_C04', 2, 'C04', 'two runs with -d into the same directory, the second with a now rejected security', {'C04': ['output-file-starts-empty']}, 'caught after rule R4g (output files are opened truncating) was added'),
+ 'C05-5': ('/tmp/wt3_C05', 1, 'C05', 'a data row with more fields than the header (two cooperating edits: flexible reader + Vec index)', {'C05': ['R5c|portfolio::io::tx_csv::parse_tx_csv'], 'C07': ['anchor-lost:column-index-map']}, 'first reported only as a lost anchor of C07 R7d; R5c was extended to indices taken from enumerate() over another sequence'),
+ 'C05-6': ('/tmp/wt3_C05', 2, 'C05', '-b symbol equal to a CSV security up to case', {'C16': ['R16b|app::approot::run_acb_app_to_delta_models']}, 'seeded against C05 (reaches an assert), reported by the C16 check'),
+ 'C06-5': ('/tmp/wt3_C06', 1, 'C06', 'a gain settling on Dec 29-31 or Jan 1-3 of a year whose ISO week-year differs', {'C06': ['year-key-is-calendar-year']}, 'caught after R6c was extended (the year key is plainly Date::year(), also through helper functions)'),
+ 'C06-6': ('/tmp/wt3_C06', 2, 'C06', 'a figure within 1e-10 below a half cent', {'C06': ['R6a|util::decimal::dollar_precision_str']}, ''),
+ 'C07-5': ('/tmp/wt3_C07', 1, 'C07', 'input listed in trade-date order with two rows settling in the reverse order', {'C07': ['sort-dominates-split']}, ''),
+ 'C07-6': ('/tmp/wt3_C07', 2, 'C07', 'files named in non-lexicographic order (same edit as C07-3, independently)', {'C07': ['files-read-in-the-order-given']}, ''),
+ 'C08-5': ('/tmp/wt3_C08', 1, 'C08', 'a failing security whose name sorts before a healthy one', {'C08': ['R8d|app::approot::run_acb_app_to_render_model']}, 'caught after R8d was extended (per-security data is not taken from a list by position)'),
+ 'C08-6': ('/tmp/wt3_C08', 2, 'C08', 'another security spelling the default affiliate in a different case earlier in the input', {'C08': ['R8f|']}, 'caught after rule R8f (an Affiliate is only built inside the interning table) was added'),
+ 'C09-5': ('/tmp/wt3_C09', 1, 'C09', 'a header repeating a recognised column (same edit as C09-4, independently)', {'C09': ['parse_tx_csv|consume|next'], 'C07': ['anchor-lost:column-index-map']}, ''),
+ 'C09-6': ('/tmp/wt3_C09', 2, 'C09', 'a denied loss shared by three affiliates with non-terminating ratios', {'C09': ['split_adjustment_amount|consume']}, ''),
+ 'C10-5': ('/tmp/wt3_C10', 1, 'C10', '--summarize-annual-gains and a year netting to zero (same idea as C10-1)', {'C10': ['one-sale-per-summarised-year']}, ''),
+ 'C10-6': ('/tmp/wt3_C10', 2, 'C10', 'a forced zero ("0!") on an unsummarisable sale', {'C11': ['R11d|trigger-guard|superficial loss']}, 'seeded against C10, reported by the C11 check (R11c/R11d/R11e)'),
 }
 VERIF = os.path.dirname(os.path.dirname(os.path.abspath(__file__)))
 def main(ids):
@@ -105,7 +126,7 @@ def main(ids):
             elif os.path.getsize(p) < 400000: shutil.copy(p, dst)
         meta = {'id': sid, 'property': pid, 'breaks': pid, 'needs_to_manifest': needs, 'caught_by': caught,
                 'detected': bool(caught), 'note': note,
-                'what_was_run': ['git apply patch.diff in a scratch worktree of /repo at its HEAD at the time (round 1: bc25aab; round 2: 4ed83c2, re-checked on 89537fd)', 'cargo build --offline --workspace',
+                'what_was_run': ['git apply patch.diff in a scratch worktree of /repo at its HEAD at the time (round 1: bc25aab; round 2: bc25aab / 4ed83c2, re-checked on 89537fd; round 3: 6e5b063, re-checked on 4ac4f3b)', 'cargo build --offline --workspace',
                                  'cargo test --workspace --offline --no-fail-fast: 114 lib + all integration tests pass (only the network test test_sample_csv_file_validity fails, as on the clean tree)',
                                  'demonstration test copied into tests/: FAILS with the patch, PASSES without it',
                                  './check <every registered property> --repo <patched worktree>'],
